@@ -150,7 +150,7 @@ def fold_case(ctx, r):
         diag = resp.get('diag', '')
         if any_undef and core.has_error_diag(diag):
             ctx.count('undefined_diagnosed'); ctx.seen('undefined_kinds', core.norm_msg(core.headline(diag))[:60]); return
-        if any(x[0] == 'unjudged' for x in results): ctx.count('unjudged'); return
+        if any(x[0] == 'unjudged' for x in results) or any(x[0] == 'unjudged' for x in const_results.values()): ctx.count('unjudged'); return
         ctx.violation('consteval:rejects-defined:%s' % core.norm_msg(core.headline(diag))[:70], diag[:400], replay); return
     if any_undef:
         which = next((E.render(t) for (_, t), x in zip(trees, results) if x[0] == 'undefined'), 'a const item')
